@@ -327,7 +327,7 @@ def o_waiters(prog, lines):
                 notif.setdefault(o, [0, 0])[0] += 1
             elif name == "notify_all":
                 notif.setdefault(o, [0, 0])[1] += 1
-            elif name in ("wait", "wait_while") and res.startswith("v:"):
+            elif name == "wait" and res.startswith("v:"):
                 # (`wait_while` may return without waiting at all and is not counted)
                 waits[o] = waits.get(o, 0) + 1
                 n1, na = notif.get(o, [0, 0])
